@@ -1,10 +1,19 @@
 import GorumsV.Props.C10
 import GorumsV.Tie.C09
+import GorumsV.Generated.Exprs
 /-! Tie for C10: connection facts of Tie/C09; digests of connect / reconnect / newNodeStream / receiver / sender /
     newChannel / newContext / dial / connect (node) / NodeStream in Tie/C10Skel.lean; engine reconn checks restarts,
     metadata and the connect callback on the real code. -/
+namespace GorumsV.Tie.C10
+open GorumsV
+/-- the manager's back-off configuration reaches both layers that re-establish a connection: the channel's own
+    reconnect loop and gRPC's re-dialling of the node's ClientConn (`grpc.WithConnectParams`) — with a short configured
+    back-off a node that listens again is not left waiting for gRPC's default (up to 120 s) timers -/
+theorem backoff_forwarded_good : Generated.mgr_forwardsBackoff = true ∧ Generated.ch_usesMgrBackoff = true := by decide
+end GorumsV.Tie.C10
 section Audit
 open GorumsV.C10
+#print axioms GorumsV.Tie.C10.backoff_forwarded_good
 #print axioms retried_on_every_request
 #print axioms comes_back_unless_wedged
 #print axioms timer_wait_reachable
